@@ -187,6 +187,10 @@ Proof.
   - intros s0. upd_cases; auto. rewrite log_recv. rewrite <- Heql; auto.
   - intros w0 m0 r0 v0 mu0 p0 E. destruct (P _ _ _ _ _ _ E) as (N1 & I1 & L1). split; auto. split; auto.
     intros s0 Hs0. upd_cases; auto. apply L1. rewrite Heql. rewrite log_recv in Hs0; auto.
+  - (* stale key (break variant) *) intros w0 m0 r0 v0 mu0 p0 E. upd_cases; winv; eauto.
+    destruct (P _ _ _ _ _ _ Heqw0) as (N1 & I1 & L1). split; auto. split.
+    + intros x Hx. apply in_or_app; left; auto.
+    + intros s0 Hs0. destruct (L1 _ Hs0). split; auto. apply in_or_app; auto.
 Qed.
 
 (* ---------- all together, for every reachable state *)
